@@ -3,7 +3,7 @@
 From Salsa Require Import Base.
 From Salsa.gen Require Import Kernels.
 From Salsa.Kern Require Import CoreK K1_Durability K2_WriteReport K3_Shortcut.
-From Salsa.Core Require Import Model Spec ReuseProofs Inv InvTop.
+From Salsa.Core Require Import Model Spec ReuseProofs Inv InvTop DInvTop DurExamples.
 
 (* --- kernel theorems, over the definitions translated from the Rust source on this run --- *)
 
@@ -82,9 +82,44 @@ Check C02_frozen : forall prog noeq fams fuel s i v d,
              d_in (fst (step prog noeq fams fuel s o)) i = d_in s i).
 Print Assumptions C02_frozen.
 
-(* --- no stale results: the full statement, and what is proved of it --- *)
-(* FULL STATEMENT (not yet proved): the from-scratch theorem for histories whose writes carry
-   arbitrary durabilities (raise/lower in the same write, synthetic writes of any level). *)
+(* --- no stale results --- *)
+(* The from-scratch theorem for histories whose inputs and writes carry arbitrary durabilities:
+   initial durabilities LOW/MEDIUM/HIGH/NEVER_CHANGE per field, writes that keep, raise or lower
+   the field's durability in the same write, synthetic writes of any level.  Every Get returns
+   the from-scratch value of the current inputs: in particular a memo that is re-verified by the
+   durability short-cut alone (last_changed(durability) <= verified_at) is never stale.
+   The ingredients, all machine-checked (Core/DurSem.v, DInv*.v): the write rule (set_field
+   reports the OLD durability to report_tracked_write, then installs the new one) gives
+   "an input whose level was not written after r is unchanged at r+1" ([inv_wr]); semantic
+   durability levels [durge] with support constancy over write-free windows ([durge_stable]);
+   memo durabilities are lower bounds of the semantic level ([mo_durge]) and decrease along
+   recorded dependencies for every observer ([mo_obs], preserved by the can_backdate guard
+   "new durability >= old"). *)
+Theorem C02_durability :
+  forall (prog : qkey -> body) (noeq : qkey -> bool) (fams : list N) (rank : qkey -> nat) (NF : nat),
+  calls_below prog rank -> (forall q, (rank q < NF)%nat) ->
+  forall fuel, (forall p, (rank p < fuel)%nat) ->
+  forall iv idur lru0 ops,
+    (forall i, idur i <= 3) -> Forall dur_op ops -> wf_ops false ops ->
+    outs_ok prog noeq fams NF fuel (init iv idur lru0) ops.
+Proof.
+  intros prog noeq fams rank NF Hrank Hbound.
+  exact (from_scratch_dur_init prog noeq fams rank Hrank NF Hbound).
+Qed.
+Check C02_durability :
+  forall (prog : qkey -> body) (noeq : qkey -> bool) (fams : list N) (rank : qkey -> nat) (NF : nat),
+  calls_below prog rank -> (forall q, (rank q < NF)%nat) ->
+  forall fuel, (forall p, (rank p < fuel)%nat) ->
+  forall iv idur lru0 ops,
+    (forall i, idur i <= 3) -> Forall dur_op ops -> wf_ops false ops ->
+    outs_ok prog noeq fams NF fuel (init iv idur lru0) ops.
+Print Assumptions C02_durability.
+
+(* The statement that was kept visible before the proof existed did not bound the durability
+   values (the model's [dur] is a number; the Rust Durability has exactly the four levels 0..3).
+   As literally written it is FALSE of the model -- an out-of-range level 4 is treated as
+   never-changing by memos but still accepts writes -- so the bounds in C02_durability are
+   necessary, and they are all that was missing. *)
 Definition C02_durability_full_statement : Prop :=
   forall (prog : qkey -> body) (noeq : qkey -> bool) (fams : list N) (rank : qkey -> nat) (NF : nat),
   calls_below prog rank -> (forall q, (rank q < NF)%nat) ->
@@ -92,9 +127,34 @@ Definition C02_durability_full_statement : Prop :=
   forall iv idur lru0 ops, wf_ops false ops ->
     outs_ok prog noeq fams NF fuel (init iv idur lru0) ops.
 
-(* PROVED PART: synthetic writes of ANY durability (MEDIUM, HIGH, and the rejected NEVER)
-   interleaved anywhere, over inputs that stay LOW.  The durability short-cut for memos that
-   read MEDIUM/HIGH/NEVER inputs is the missing step (DESIGN §7 C01 Step B). *)
+Theorem C02_durability_needs_levels : ~ C02_durability_full_statement.
+Proof.
+  intros Hall.
+  apply (proj2 out_of_range_durability_is_stale).
+  apply (Hall ex_prog ex_noeq [] ex_rank 2%nat ex_calls_below ex_bound 2%nat ex_bound).
+  cbn. repeat split.
+Qed.
+Check C02_durability_needs_levels : ~ C02_durability_full_statement.
+Print Assumptions C02_durability_needs_levels.
+
+(* with the levels bounded, the old full statement is exactly C02_durability *)
+Theorem C02_durability_full_statement_bounded :
+  forall (prog : qkey -> body) (noeq : qkey -> bool) (fams : list N) (rank : qkey -> nat) (NF : nat),
+  calls_below prog rank -> (forall q, (rank q < NF)%nat) ->
+  forall fuel, (forall p, (rank p < fuel)%nat) ->
+  forall iv idur lru0 ops, (forall i, idur i <= 3) -> Forall dur_op ops -> wf_ops false ops ->
+    outs_ok prog noeq fams NF fuel (init iv idur lru0) ops.
+Proof. exact C02_durability. Qed.
+Check C02_durability_full_statement_bounded :
+  forall (prog : qkey -> body) (noeq : qkey -> bool) (fams : list N) (rank : qkey -> nat) (NF : nat),
+  calls_below prog rank -> (forall q, (rank q < NF)%nat) ->
+  forall fuel, (forall p, (rank p < fuel)%nat) ->
+  forall iv idur lru0 ops, (forall i, idur i <= 3) -> Forall dur_op ops -> wf_ops false ops ->
+    outs_ok prog noeq fams NF fuel (init iv idur lru0) ops.
+Print Assumptions C02_durability_full_statement_bounded.
+
+(* the earlier partial statement (synthetic writes of any durability over LOW inputs), now a
+   corollary *)
 Theorem C02_durability_partial :
   forall (prog : qkey -> body) (noeq : qkey -> bool) (fams : list N) (rank : qkey -> nat) (NF : nat),
   calls_below prog rank -> (forall q, (rank q < NF)%nat) ->
@@ -103,9 +163,8 @@ Theorem C02_durability_partial :
     Forall low_op ops -> wf_ops false ops ->
     outs_ok prog noeq fams NF fuel (init iv (fun _ => 0) lru0) ops.
 Proof.
-  intros prog noeq fams rank NF Hrank Hbound fuel Hfuel iv lru0 ops Hlow Hwf.
-  exact (from_scratch_low prog noeq fams rank Hrank NF Hbound fuel Hfuel ops false _ Hlow Hwf
-           (init_ok prog NF iv lru0)).
+  intros prog noeq fams rank NF Hrank Hbound.
+  exact (from_scratch_low_again prog noeq fams rank Hrank NF Hbound).
 Qed.
 Check C02_durability_partial :
   forall (prog : qkey -> body) (noeq : qkey -> bool) (fams : list N) (rank : qkey -> nat) (NF : nat),
@@ -115,3 +174,23 @@ Check C02_durability_partial :
     Forall low_op ops -> wf_ops false ops ->
     outs_ok prog noeq fams NF fuel (init iv (fun _ => 0) lru0) ops.
 Print Assumptions C02_durability_partial.
+
+(* the short-cut at work on a concrete history (see Core/DurExamples.v) *)
+Theorem C02_shortcut_example :
+  d_log (fst (ex_run 3)) = [EvExec (1, 0); EvExec (0, 0)] /\
+  option_map m_verified (d_memo (fst (ex_run 3)) (1, 0)) = Some 1 /\
+  d_log (fst (ex_run 4)) = [EvValidate (1, 0); EvExec (1, 0); EvExec (0, 0)] /\
+  option_map (fun m => (m_verified m, m_changed m, m_dur m)) (d_memo (fst (ex_run 4)) (1, 0)) = Some (2, 1, 2) /\
+  d_revs (fst (ex_run 4)) = {| r_cur := 2; r_med := 1; r_high := 1 |} /\
+  d_revs (fst (ex_run 6)) = {| r_cur := 3; r_med := 3; r_high := 3 |} /\
+  firstn 1 (d_log (fst (ex_run 7))) = [EvExec (1, 0)].
+Proof. exact ex_shortcut_fires. Qed.
+Check C02_shortcut_example :
+  d_log (fst (ex_run 3)) = [EvExec (1, 0); EvExec (0, 0)] /\
+  option_map m_verified (d_memo (fst (ex_run 3)) (1, 0)) = Some 1 /\
+  d_log (fst (ex_run 4)) = [EvValidate (1, 0); EvExec (1, 0); EvExec (0, 0)] /\
+  option_map (fun m => (m_verified m, m_changed m, m_dur m)) (d_memo (fst (ex_run 4)) (1, 0)) = Some (2, 1, 2) /\
+  d_revs (fst (ex_run 4)) = {| r_cur := 2; r_med := 1; r_high := 1 |} /\
+  d_revs (fst (ex_run 6)) = {| r_cur := 3; r_med := 3; r_high := 3 |} /\
+  firstn 1 (d_log (fst (ex_run 7))) = [EvExec (1, 0)].
+Print Assumptions C02_shortcut_example.
